@@ -46,4 +46,8 @@ def digitExtends (a b : Ident) : Bool :=
 
 def suffixClashRegion (cs : List Ident) : Bool := cs.any fun a => cs.any fun b => digitExtends a b
 
+/-- Region predicate of the known finding `mangle_collision`: two distinct C identifiers with the same
+Rust identifier. -/
+def mangleCollision (a b : Ident) : Bool := a != b && rustMangle a == rustMangle b
+
 end BindgenModel.Names
